@@ -123,6 +123,12 @@ class Angle:
         self.rate = rate
         ENV.assume(self.c * self.c + self.s * self.s == 1)
 
+    def __add__(self, o):
+        a = Angle.__new__(Angle)
+        a.c, a.s = self.c * o.c - self.s * o.s, self.s * o.c + self.c * o.s
+        a.rate = None if (self.rate is None and o.rate is None) else D.lift(self.rate or 0) + D.lift(o.rate or 0)
+        return a
+
     def __neg__(self):
         a = Angle.__new__(Angle); a.c, a.s = self.c, -self.s
         a.rate = None if self.rate is None else -D.lift(self.rate)
@@ -236,8 +242,13 @@ class Mat:
             return Vec([self.m[r][i] for r in range(self.nr)])     # column
         return self.m[i][j]
 
-    def __getitem__(self, i): return Row(list(self.m[i]))
+    def __getitem__(self, i):
+        r = Row.__new__(Row); r.e = self.m[i]      # shares storage: R[i][j] = x writes through
+        return r
+    def __setitem__(self, i, row): self.m[i] = [_z(x) for x in row]
     def row(self, i): return Row(list(self.m[i]))
+    def assign(self, other):
+        self.m = [list(r) for r in other.m]; return self
     def col(self, j): return Vec([self.m[r][j] for r in range(self.nr)])
     def __invert__(a): return Mat([[a.m[i][j] for i in range(a.nr)] for j in range(a.nc)])
     def transpose(a): return ~a
@@ -262,8 +273,18 @@ class Mat:
         return NotImplemented
     def __truediv__(a, b): return Mat([[x / b for x in r] for r in a.m])
     def elements(a): return [x for r in a.m for x in r]
+    def getSubMat(a, nr, nc, i, j): return Mat([a.m[r][j:j + nc] for r in range(i, i + nr)])
     def trace(a): return sum((a.m[i][i] for i in range(1, a.nr)), a.m[0][0])
     def diag(a): return Vec([a.m[i][i] for i in range(a.nr)])
+
+
+def symmat33(*a):
+    """SimTK SymMat33 constructor: lower triangle by rows (00; 10 11; 20 21 22)"""
+    if len(a) == 1 and isinstance(a[0], Mat):
+        return Mat(a[0].m)
+    assert len(a) == 6
+    a00, a10, a11, a20, a21, a22 = a
+    return Mat([[a00, a10, a20], [a10, a11, a21], [a20, a21, a22]])
 
 
 def eye(n):
